@@ -2,35 +2,45 @@
 (***************************************************************************)
 (* Request statistics of the Redis processor (C20): the downstream total   *)
 (* is incremented at dispatch and a completion hook counts success or      *)
-(* failure (redis.go:176-220); every send of a request to a backend -      *)
-(* including each resend after a redirection - increments the upstream     *)
-(* total and registers one more hook on the request (upstream.go:186-196); *)
-(* per-command counters move with the downstream request when a handler    *)
-(* exists; all hooks of a request run when it is completed.                *)
+(* failure (redis.go handleRequest); every send of a request to a backend  *)
+(* - including each resend after a redirection - increments the upstream   *)
+(* total and registers one more hook on the request (upstream.go           *)
+(* MakeRequestToHost); per-command counters move with the downstream       *)
+(* request when a handler exists; all hooks of a request run when it is    *)
+(* completed.                                                              *)
 (*                                                                         *)
-(* Service stop (redis.go Stop, upstream.go Serve/Stop): the sessions end  *)
-(* first WITHOUT waiting for their requests at the backends, then the      *)
-(* upstream's quit latch is closed (phase "quit"), the slots refresher and *)
-(* the hot key collector leave, and only then the backend clients are      *)
-(* stopped (phase "stopped") and drain what they still hold.  While the    *)
-(* latch is closed and the clients are alive a send is still possible:     *)
-(*  - a redirection reply (MOVED/ASK) for a request that is still in       *)
-(*    flight makes the client's reader call MakeRequestToHost again;       *)
-(*  - the refresher (loopRefreshSlots) that took the pending refresh       *)
-(*    trigger instead of the quit signal (Go's select picks at random when *)
-(*    both are ready) issues its "cluster nodes" request.                  *)
-(* Such a send is counted in the upstream total and answered at once with  *)
-(* "upstream exited".  HookBeforeQuitCheck = TRUE (the code): the          *)
-(* completion hook is registered before the latch is looked at, so the     *)
-(* answer is counted as a failure.  FALSE: the hook is registered only     *)
-(* once the latch was found open - the total stays one ahead for ever      *)
-(* (must violate Conserved: anti-vacuity).                                 *)
+(* Service stop (redis.go Stop, upstream.go Serve/signalQuit/Stop):        *)
+(* redisProc.Stop closes the upstream's quit latch FIRST, then waits for   *)
+(* the sessions, then for the upstream.  As soon as the latch is closed    *)
+(* upstream.Serve tells every backend client to quit; their drains answer  *)
+(* whatever they hold with "backend exited" (the refresher's outstanding   *)
+(* "cluster nodes" included); then Serve waits for the refresher and the   *)
+(* clients.  Phase "quit" = latch closed, Stop not yet returned; phase     *)
+(* "stopped" = Stop has returned.  What can still happen in phase "quit":  *)
+(*  (a) a send by a goroutine that was already on its way when the latch   *)
+(*      closed: the refresher that had taken a trigger (Go's select picks  *)
+(*      at random between the trigger and the quit signal), a backend      *)
+(*      reader that holds a MOVED/ASK reply in hand, a session reader that *)
+(*      has decoded a request.  It is counted in the upstream total and    *)
+(*      answered at once with "upstream exited";                           *)
+(*  (b) a reply that a backend reader already holds in hand is delivered;  *)
+(*  (c) completions by the drains.                                         *)
+(* (A send whose quit check came just before the latch closed is refused   *)
+(* in createClient, or by the target client's Send, or drained by it: in   *)
+(* every case its hook was registered - for the counters this is a send in *)
+(* phase "serving" followed by Quit and Drain.)                            *)
+(* HookBeforeQuitCheck = TRUE (the code): the completion hook is           *)
+(* registered before the latch is looked at, so the answer of (a) is       *)
+(* counted as a failure.  FALSE: the hook is registered only once the      *)
+(* latch was found open - the total stays one ahead for ever (must violate *)
+(* Conserved: anti-vacuity).                                               *)
 (*                                                                         *)
 (* The refresher's own requests ("cluster nodes") have no downstream and   *)
 (* no per-command counters; at most one is outstanding.  A pick of the     *)
 (* pending trigger after the latch was closed is the same behaviour as the *)
 (* pick just before it, so RefreshPick is only modelled in phase           *)
-(* "serving".                                                              *)
+(* "serving"; likewise a reader that takes a buffered reply after the      *)
+(* latch was closed behaves like one that took it just before.             *)
 (***************************************************************************)
 EXTENDS Naturals, FiniteSets, TLC
 
@@ -38,61 +48,87 @@ CONSTANTS Reqs, MaxResends,
           MaxRefresh,            \* bound on the refresh rounds of one behaviour
           HookBeforeQuitCheck    \* TRUE: the code; FALSE: hook registered after the fail-fast check of the quit latch
 
-VARIABLES st,        \* st[r]: "new" | "rejected" | "inflight" | "done"
+VARIABLES st,        \* st[r]: "new" | "decoded" (session reader has it, not yet dispatched) | "inflight" (at a backend client)
+                     \*        | "inhand" (a backend reader holds it together with its reply) | "done"
           known,     \* known[r]: a handler exists for the command (per-command counters are kept)
-          hooks,     \* hooks[r]: upstream hooks registered on r so far (= number of sends while the latch was open)
-          phase,     \* "serving" | "quit" (upstream.quit closed, backend clients alive) | "stopped" (clients stopped)
+          hooks,     \* hooks[r]: upstream hooks registered on r so far (= number of sends that registered one)
+          phase,     \* "serving" | "quit" (upstream.quit closed, Stop running) | "stopped" (Stop returned)
           rf,        \* refresher: "idle" (at its select) | "picked" (took the trigger) | "waiting" (for the reply) | "exited"
           tok,       \* slotsRefreshCh holds a trigger
-          iout,      \* the refresher's "cluster nodes" request is outstanding at a backend client (one hook)
+          iout,      \* the refresher's "cluster nodes" request: "none" | "inflight" | "inhand" (one hook)
           nref,      \* refresh rounds so far
           dTotal, dOK, dFail, uTotal, uOK, uFail, cTotal, cOK, cErr
 
 vars == <<st, known, hooks, phase, rf, tok, iout, nref, dTotal, dOK, dFail, uTotal, uOK, uFail, cTotal, cOK, cErr>>
 refr == <<rf, tok, iout, nref>>
 dcnt == <<dTotal, dOK, dFail>>
+ucnt == <<uTotal, uOK, uFail>>
 ccnt == <<cTotal, cOK, cErr>>
 
 LateHook == IF HookBeforeQuitCheck THEN 1 ELSE 0
 
 Init ==
   /\ st = [r \in Reqs |-> "new"] /\ known \in [Reqs -> BOOLEAN] /\ hooks = [r \in Reqs |-> 0]
-  /\ phase = "serving" /\ rf = "idle" /\ tok = TRUE /\ iout = FALSE /\ nref = 0   \* loopRefreshSlots triggers at once
+  /\ phase = "serving" /\ rf = "idle" /\ tok = TRUE /\ iout = "none" /\ nref = 0   \* loopRefreshSlots triggers at once
   /\ dTotal = 0 /\ dOK = 0 /\ dFail = 0 /\ uTotal = 0 /\ uOK = 0 /\ uFail = 0
   /\ cTotal = 0 /\ cOK = 0 /\ cErr = 0
 
+\* ---- the session reader
+\* session.loopRead has decoded the request and is about to call handleRequest
+SessionDecodes(r) ==
+  /\ phase = "serving" /\ st[r] = "new" /\ st' = [st EXCEPT ![r] = "decoded"]
+  /\ UNCHANGED <<known, hooks, phase, refr, dcnt, ucnt, ccnt>>
+
 \* handleRequest: invalid shape or unknown command -> error reply at once; local commands -> answered at once
-DispatchLocal(r, ok) ==
-  /\ phase = "serving" /\ (ok => known[r])
-  /\ st[r] = "new" /\ st' = [st EXCEPT ![r] = "done"]
+Local(r, ok) ==
+  /\ ok => known[r]
+  /\ st' = [st EXCEPT ![r] = "done"]
   /\ dTotal' = dTotal + 1
   /\ IF ok THEN dOK' = dOK + 1 /\ UNCHANGED dFail ELSE dFail' = dFail + 1 /\ UNCHANGED dOK
   /\ IF known[r] THEN /\ cTotal' = cTotal + 1
                       /\ (IF ok THEN cOK' = cOK + 1 /\ UNCHANGED cErr ELSE cErr' = cErr + 1 /\ UNCHANGED cOK)
                  ELSE UNCHANGED ccnt
-  /\ UNCHANGED <<known, hooks, phase, refr, uTotal, uOK, uFail>>
+  /\ UNCHANGED <<known, hooks, phase, refr, ucnt>>
 
-\* handleRequest -> MakeRequestToHost: first send (sessions only exist while the service is serving)
+DispatchLocal(r, ok) == phase = "serving" /\ st[r] \in {"new", "decoded"} /\ Local(r, ok)
+\* the session reader had the request when Stop began: nothing of the upstream is involved
+DispatchLocalAfterQuit(r, ok) == phase = "quit" /\ st[r] = "decoded" /\ Local(r, ok)
+
+\* handleRequest -> MakeRequestToHost: first send
 DispatchForward(r) ==
   /\ phase = "serving"
-  /\ st[r] = "new" /\ known[r] /\ st' = [st EXCEPT ![r] = "inflight"]
+  /\ st[r] \in {"new", "decoded"} /\ known[r] /\ st' = [st EXCEPT ![r] = "inflight"]
   /\ dTotal' = dTotal + 1 /\ cTotal' = cTotal + 1
   /\ uTotal' = uTotal + 1 /\ hooks' = [hooks EXCEPT ![r] = 1]
   /\ UNCHANGED <<known, phase, refr, dOK, dFail, uOK, uFail, cOK, cErr>>
 
-\* handleRedirection -> MakeRequestToHost again, then triggerSlotsRefresh
+\* ... by a session reader that races with Stop: counted everywhere, (hook,) "upstream exited"
+DispatchForwardAfterQuit(r) ==
+  /\ phase = "quit"
+  /\ st[r] = "decoded" /\ known[r] /\ st' = [st EXCEPT ![r] = "done"]
+  /\ dTotal' = dTotal + 1 /\ cTotal' = cTotal + 1 /\ dFail' = dFail + 1 /\ cErr' = cErr + 1
+  /\ uTotal' = uTotal + 1 /\ hooks' = [hooks EXCEPT ![r] = LateHook] /\ uFail' = uFail + LateHook
+  /\ UNCHANGED <<known, phase, refr, dOK, uOK, cOK>>
+
+\* ---- the backend reader
+\* client.loopRead has decoded a reply and paired it with r
+ReaderTakes(r) ==
+  /\ phase = "serving" /\ st[r] = "inflight" /\ st' = [st EXCEPT ![r] = "inhand"]
+  /\ UNCHANGED <<known, hooks, phase, refr, dcnt, ucnt, ccnt>>
+
+\* the reply is MOVED/ASK: handleRedirection -> MakeRequestToHost again, then triggerSlotsRefresh
 Resend(r) ==
   /\ phase = "serving"
-  /\ st[r] = "inflight" /\ hooks[r] <= MaxResends
+  /\ st[r] = "inhand" /\ hooks[r] <= MaxResends /\ st' = [st EXCEPT ![r] = "inflight"]
   /\ uTotal' = uTotal + 1 /\ hooks' = [hooks EXCEPT ![r] = @ + 1]
   /\ tok' = TRUE
-  /\ UNCHANGED <<st, known, phase, rf, iout, nref, dcnt, uOK, uFail, ccnt>>
+  /\ UNCHANGED <<known, phase, rf, iout, nref, dcnt, uOK, uFail, ccnt>>
 
-\* the redirection reply arrives between the close of the quit latch and the stop of the backend clients:
+\* the reader held the redirection when the latch was closed:
 \* counted, (hook,) fail-fast answer "upstream exited" -> every registered hook runs
 ResendAfterQuit(r) ==
   /\ phase = "quit"
-  /\ st[r] = "inflight" /\ hooks[r] <= MaxResends
+  /\ st[r] = "inhand" /\ hooks[r] <= MaxResends
   /\ st' = [st EXCEPT ![r] = "done"]
   /\ uTotal' = uTotal + 1 /\ hooks' = [hooks EXCEPT ![r] = @ + LateHook]
   /\ uFail' = uFail + hooks[r] + LateHook
@@ -100,33 +136,33 @@ ResendAfterQuit(r) ==
   /\ UNCHANGED <<known, phase, refr, dTotal, dOK, uOK, cTotal, cOK>>
 
 Finished(r, ok) ==
-  /\ st[r] = "inflight" /\ st' = [st EXCEPT ![r] = "done"]
+  /\ st' = [st EXCEPT ![r] = "done"]
   /\ IF ok THEN /\ dOK' = dOK + 1 /\ uOK' = uOK + hooks[r] /\ cOK' = cOK + 1 /\ UNCHANGED <<dFail, uFail, cErr>>
            ELSE /\ dFail' = dFail + 1 /\ uFail' = uFail + hooks[r] /\ cErr' = cErr + 1 /\ UNCHANGED <<dOK, uOK, cOK>>
   /\ UNCHANGED <<known, hooks, phase, refr, dTotal, uTotal, cTotal>>
 
-\* SetResponse (backend reply / backend failure): every registered hook runs
-Complete(r, ok) == phase = "serving" /\ Finished(r, ok)
-\* ... the same while the quit latch is closed and the backend clients are still alive (nobody waits for it any more)
-CompleteAfterQuit(r, ok) == phase = "quit" /\ Finished(r, ok)
-\* client.Stop -> drainRequests: "backend exited"
-Drain(r) == phase = "stopped" /\ Finished(r, FALSE)
+\* SetResponse with the backend's reply (a value or an error): every registered hook runs
+Complete(r, ok) == phase = "serving" /\ st[r] = "inhand" /\ Finished(r, ok)
+\* ... by a reader that held the reply when the latch was closed (nobody waits for it any more)
+CompleteAfterQuit(r, ok) == phase = "quit" /\ st[r] = "inhand" /\ Finished(r, ok)
+\* client.signalQuit -> loops leave -> drainRequests: "backend exited"
+Drain(r) == phase = "quit" /\ st[r] = "inflight" /\ Finished(r, FALSE)
 
 \* ---- the slots refresher
 \* host added / removed / replaced, CLUSTERDOWN, periodic timer
 Trigger ==
   /\ phase = "serving" /\ ~tok /\ tok' = TRUE
-  /\ UNCHANGED <<st, known, hooks, phase, rf, iout, nref, dcnt, uTotal, uOK, uFail, ccnt>>
+  /\ UNCHANGED <<st, known, hooks, phase, rf, iout, nref, dcnt, ucnt, ccnt>>
 
 RefreshPick ==
   /\ phase = "serving" /\ rf = "idle" /\ tok /\ nref < MaxRefresh
   /\ rf' = "picked" /\ tok' = FALSE /\ nref' = nref + 1
-  /\ UNCHANGED <<st, known, hooks, phase, iout, dcnt, uTotal, uOK, uFail, ccnt>>
+  /\ UNCHANGED <<st, known, hooks, phase, iout, dcnt, ucnt, ccnt>>
 
 \* doSlotsRefresh -> MakeRequestToHost
 RefreshSend ==
   /\ phase = "serving" /\ rf = "picked"
-  /\ uTotal' = uTotal + 1 /\ iout' = TRUE /\ rf' = "waiting"
+  /\ uTotal' = uTotal + 1 /\ iout' = "inflight" /\ rf' = "waiting"
   /\ UNCHANGED <<st, known, hooks, phase, tok, nref, dcnt, uOK, uFail, ccnt>>
 
 \* the refresher took the trigger, then the latch was closed: counted, (hook,) "upstream exited", refresher leaves
@@ -135,47 +171,60 @@ RefreshSendAfterQuit ==
   /\ uTotal' = uTotal + 1 /\ uFail' = uFail + LateHook /\ rf' = "exited"
   /\ UNCHANGED <<st, known, hooks, phase, tok, iout, nref, dcnt, uOK, ccnt>>
 
+\* the seed client's reader has paired the reply with the refresher's request
+ReaderTakesRefresh ==
+  /\ phase = "serving" /\ iout = "inflight" /\ iout' = "inhand"
+  /\ UNCHANGED <<st, known, hooks, phase, rf, tok, nref, dcnt, ucnt, ccnt>>
+
 IFinished(ok) ==
-  /\ iout /\ iout' = FALSE
+  /\ iout' = "none"
   /\ IF ok THEN uOK' = uOK + 1 /\ UNCHANGED uFail ELSE uFail' = uFail + 1 /\ UNCHANGED uOK
   /\ UNCHANGED <<st, known, hooks, phase, nref, dcnt, uTotal, ccnt>>
 
 \* reply to "cluster nodes"; a failed refresh asks for another one
 RefreshDone(ok) ==
-  /\ phase = "serving" /\ rf = "waiting" /\ IFinished(ok)
+  /\ phase = "serving" /\ rf = "waiting" /\ iout = "inhand" /\ IFinished(ok)
   /\ rf' = "idle" /\ tok' = (tok \/ ~ok)
-\* the refresher has left (doSlotsRefresh returns on quit), its request is still at the backend client
-RefreshDoneAfterQuit(ok) == phase = "quit" /\ IFinished(ok) /\ UNCHANGED <<rf, tok>>
-RefreshDrain == phase = "stopped" /\ IFinished(FALSE) /\ UNCHANGED <<rf, tok>>
+\* the refresher has left (doSlotsRefresh returns on quit); the reader held the reply when the latch was closed
+RefreshDoneAfterQuit(ok) == phase = "quit" /\ iout = "inhand" /\ IFinished(ok) /\ UNCHANGED <<rf, tok>>
+\* ... or the seed client's drain answers it
+RefreshDrain == phase = "quit" /\ iout = "inflight" /\ IFinished(FALSE) /\ UNCHANGED <<rf, tok>>
 
 \* ---- stop
-\* redisProc.Stop: sessions gone, upstream.Stop closes quit; a refresher at its select or waiting for a reply leaves
+\* redisProc.Stop -> upstream.signalQuit; a refresher at its select or waiting for a reply leaves;
+\* Serve tells every backend client to quit
 Quit ==
   /\ phase = "serving" /\ phase' = "quit"
   /\ rf' = IF rf = "picked" THEN "picked" ELSE "exited"
-  /\ UNCHANGED <<st, known, hooks, tok, iout, nref, dcnt, uTotal, uOK, uFail, ccnt>>
+  /\ UNCHANGED <<st, known, hooks, tok, iout, nref, dcnt, ucnt, ccnt>>
 
-\* upstream.Serve: wg.Wait (refresher, collector), then every backend client is stopped
-ClientsStop ==
-  /\ phase = "quit" /\ rf = "exited" /\ phase' = "stopped"
-  /\ UNCHANGED <<st, known, hooks, refr, dcnt, uTotal, uOK, uFail, ccnt>>
+\* Stop returns: the sessions, the refresher and every backend client have finished
+Stopped ==
+  /\ phase = "quit" /\ rf = "exited" /\ iout = "none"
+  /\ \A r \in Reqs : st[r] \in {"new", "done"}
+  /\ phase' = "stopped"
+  /\ UNCHANGED <<st, known, hooks, refr, dcnt, ucnt, ccnt>>
 
 ReqStep(r) ==
-  \/ \E ok \in BOOLEAN : DispatchLocal(r, ok) \/ Complete(r, ok) \/ CompleteAfterQuit(r, ok)
-  \/ DispatchForward(r) \/ Resend(r) \/ ResendAfterQuit(r) \/ Drain(r)
+  \/ \E ok \in BOOLEAN : \/ DispatchLocal(r, ok) \/ DispatchLocalAfterQuit(r, ok)
+                         \/ Complete(r, ok) \/ CompleteAfterQuit(r, ok)
+  \/ SessionDecodes(r) \/ DispatchForward(r) \/ DispatchForwardAfterQuit(r)
+  \/ ReaderTakes(r) \/ Resend(r) \/ ResendAfterQuit(r) \/ Drain(r)
 
 Next ==
   \/ \E r \in Reqs : ReqStep(r)
-  \/ Trigger \/ RefreshPick \/ RefreshSend \/ RefreshSendAfterQuit
+  \/ Trigger \/ RefreshPick \/ RefreshSend \/ RefreshSendAfterQuit \/ ReaderTakesRefresh
   \/ \E ok \in BOOLEAN : RefreshDone(ok) \/ RefreshDoneAfterQuit(ok)
-  \/ RefreshDrain \/ Quit \/ ClientsStop
+  \/ RefreshDrain \/ Quit \/ Stopped
 Spec == Init /\ [][Next]_vars
 
-Quiescent == (\A r \in Reqs : st[r] \in {"new", "done"}) /\ ~iout
+\* no request is counted and unanswered (a request a session reader has merely decoded is not counted anywhere yet)
+Quiescent == (\A r \in Reqs : st[r] \in {"new", "decoded", "done"}) /\ iout = "none"
 Conserved == Quiescent => /\ dTotal = dOK + dFail
                           /\ uTotal = uOK + uFail
                           /\ cTotal = cOK + cErr
 NeverAhead == dOK + dFail <= dTotal /\ uOK + uFail <= uTotal /\ cOK + cErr <= cTotal
-\* a stopped service becomes quiescent: nothing but drains is left, and they are enabled
-StoppedDrains == phase = "stopped" => (Quiescent \/ ENABLED (RefreshDrain \/ \E r \in Reqs : Drain(r)))
+\* a stop always gets through: until Stop returns something is enabled, and then the service is quiescent
+QuitProgress == phase = "quit" => ENABLED Next
+StoppedQuiescent == phase = "stopped" => Quiescent
 =============================================================================
